@@ -37,6 +37,30 @@ def has_set(v):
     return False
 
 
+def nested_constants(obj, path=()):
+    """(path in the serialised document, declared constants) for every nested schema object below obj."""
+    from pydantic import BaseModel
+    fields = getattr(obj, "__fields__", {})
+    for fname, v in getattr(obj, "__dict__", {}).items():
+        key = fields[fname].alias if fname in fields else fname
+        yield from _nested_value(v, path + (key,))
+
+
+def _nested_value(v, path):
+    from pydantic import BaseModel
+    if isinstance(v, BaseModel):
+        c = getattr(type(v), "__constants__", None)
+        if c:
+            yield path, dict(c)
+        yield from nested_constants(v, path)
+    elif isinstance(v, (list, tuple)):
+        for i, x in enumerate(v):
+            yield from _nested_value(x, path + (i,))
+    elif isinstance(v, dict):
+        for k, x in v.items():
+            yield from _nested_value(x, path + (k,))
+
+
 def check_instance(cls, obj, acc, tmp: Path, origin, consts=None):
     """-> (kind, detail) or None"""
     name = cls.__name__
@@ -67,6 +91,25 @@ def check_instance(cls, obj, acc, tmp: Path, origin, consts=None):
         if form == "bytes" and not has_set(obj):
             if bytes(back) != b:
                 return "second-roundtrip", f"{name}: second dump differs: {b[:120]!r} vs {bytes(back)[:120]!r}"
+    # constants of NESTED schema objects (wherever the value sits, however it was built) in every textual form
+    nested = list(nested_constants(obj))
+    if nested:
+        acc.count("nested_constant_checks")
+        import yaml as _yaml
+        docs = {"bytes": json.loads(b), "json": json.loads(j), "yaml": _yaml.safe_load(y), "json_dict": jd}
+        for form, doc in docs.items():
+            for path, want in nested:
+                cur = doc
+                try:
+                    for seg in path:
+                        cur = cur[seg]
+                except (KeyError, IndexError, TypeError):
+                    cur = None
+                if not isinstance(cur, dict):
+                    continue  # (position not addressable in this form, e.g. a set serialised in another order)
+                for ck, cv in want.items():
+                    if ck not in cur or json.dumps(cur[ck], sort_keys=True, default=str) != json.dumps(cv, sort_keys=True, default=str):
+                        return f"constant-missing:{form}", f"{name}: nested object at {'/'.join(map(str, path))} lacks its constant {ck}={cv!r} in the {form} output: {str(cur)[:120]}"
     consts = consts if consts is not None else (getattr(cls, "__constants__", {}) or {})
     if consts:
         acc.count("constant_checks")
@@ -152,7 +195,7 @@ def run_unit(u, acc):
 
 def inconclusive(cov):
     c = cov["counters"]
-    r = [f"monitor counter {k} is zero" for k in ("roundtrips.bytes", "roundtrips.yaml", "roundtrips.yaml-file", "constant_checks", "declared_falsy_constants",
+    r = [f"monitor counter {k} is zero" for k in ("roundtrips.bytes", "roundtrips.yaml", "roundtrips.yaml-file", "constant_checks", "nested_constant_checks", "declared_falsy_constants",
                                                   "classes.installed", "classes.installed-versionless", "classes.generated") if not c.get(k)]
     acc, rej = c.get("candidates_accepted", 0), c.get("candidates_rejected", 0)
     if acc < 0.2 * (acc + rej):
